@@ -48,9 +48,10 @@ def _local(node):
             mod("CentrallyBin.nf-type", nf={"t": "Sum", "q": "y"})
     elif t in ("IrregularlyBin", "Stack"):
         e = list(node["p"])
-        mod(t + ".threshold", p=e[:-1] + [e[-1] + 0.5])
-        mod(t + ".threshold", p=e[:-1] + [_ulp(e[-1])])
-        mod(t + ".extra-trailing-threshold", p=e + [e[-1] + 1.0])
+        if e:
+            mod(t + ".threshold", p=e[:-1] + [e[-1] + 0.5])
+            mod(t + ".threshold", p=e[:-1] + [_ulp(e[-1])])
+        mod(t + ".extra-trailing-threshold", p=e + [(e[-1] + 1.0) if e else 0.0])
         mod(t + ".fewer-thresholds", p=e[:-1]) if len(e) > 1 else None
         if "nf" not in node:
             mod(t + ".nf-type", nf={"t": "Sum", "q": "y"})
